@@ -45,3 +45,42 @@ Proof. exact json_count_spec. Qed.
 
 Print Assumptions C02_short_notation_denotes_the_path.
 Print Assumptions C02_json_listing.
+
+(* ------------------------------------------------------------------------------------------------------------
+   Extension (third round): regenerated path search (Lemmas/SearchGenLemmas.v) *)
+From Coq Require Import List String NArith ZArith Bool Arith.
+From Tealer Require Import Tables Syntax Parse Cfg StackAst Analysis Domains Detect SearchGen Paths SearchLemmas TotalSolver TotalSearch SearchGenLemmas.
+
+(* the path search REGENERATED from detectors/utils.py (tools/translate_search.py -> Gen/SearchGen.v) computes exactly what the model's run_detector computes, exceptions included *)
+Theorem C02_search_regenerated :
+  forall (f : func) (r : fn_result) (fuel : nat) (name : string) (checks : LeafPrelude.bctx -> bool),
+       defined_okb f = true ->
+       detect_missing_tx_field_validations_gen f (validated_in_block r checks None)
+         (if name =? "group-size-check" then fun path : list nat => existsb (accessed_using_absolute_index f) path else fun _ : list nat => true)
+         fuel = lift nil (run_detector f r fuel name checks).
+Proof. exact @run_detector_gen_eq. Qed.
+
+(* every path reported by the regenerated search is a genuine, unvalidated accepting path (and satisfies the report condition) *)
+Theorem C02_regenerated_paths_genuine :
+  forall (f : func) (validated : nat -> bool) (report : list nat -> bool) (fuel : nat) (ps : list (list nat)),
+       detect_missing_tx_field_validations_gen f validated report fuel = Some ps ->
+       forall p : list nat, In p ps -> GoodPath f validated p /\ report p = true.
+Proof. exact @detect_gen_sound. Qed.
+
+(* ... every genuine path is reported *)
+Theorem C02_regenerated_all_genuine_paths_reported :
+  forall (f : func) (validated : nat -> bool) (report : list nat -> bool) (fuel : nat) (ps : list (list nat)) (p : list nat),
+       GoodPath f validated p -> report p = true -> detect_missing_tx_field_validations_gen f validated report fuel = Some ps -> In p ps.
+Proof. exact @detect_gen_complete. Qed.
+
+(* ... and none twice *)
+Theorem C02_regenerated_no_path_twice :
+  forall (f : func) (validated : nat -> bool) (report : list nat -> bool) (fuel : nat) (ps : list (list nat)),
+       (forall (n : nat) (b : block), fblock f n = Some b -> NoDup (b_next b)) ->
+       detect_missing_tx_field_validations_gen f validated report fuel = Some ps -> NoDup ps.
+Proof. exact @detect_gen_nodup. Qed.
+
+Print Assumptions C02_search_regenerated.
+Print Assumptions C02_regenerated_paths_genuine.
+Print Assumptions C02_regenerated_all_genuine_paths_reported.
+Print Assumptions C02_regenerated_no_path_twice.
